@@ -300,17 +300,19 @@ type Extractor struct {
 }
 
 type walker struct {
-	x         *Extractor
-	env       map[types.Object]val
-	frames    []*frame
-	ops       *[]*Op
-	seq       *Seq
-	encode    bool
-	depth     int
-	condStack []ast.Expr
-	made      map[string]Path // decode: list field -> count field it was allocated with (p.L = make([]T, p.C))
-	errFirst  bool            // decode: `if readerErr != nil { return readerErr }` has been passed at top level
-	termAt    int             // encode: number of wire ops emitted when w.Bytes()/BytesWithLength() was evaluated into locals (-1: not yet)
+	x          *Extractor
+	env        map[types.Object]val
+	frames     []*frame
+	ops        *[]*Op
+	seq        *Seq
+	encode     bool
+	depth      int
+	condStack  []ast.Expr
+	made       map[string]Path // decode: list field -> count field it was allocated with (p.L = make([]T, p.C))
+	errFirst   bool            // decode: `if readerErr != nil { return readerErr }` has been passed at top level
+	retBytes   bool            // ExtractBytesMethod: the octets returned are the wire image
+	resultRoot *Root           // ExtractFunc, decode: a struct returned as a literal is stored under this root
+	termAt     int             // encode: number of wire ops emitted when w.Bytes()/BytesWithLength() was evaluated into locals (-1: not yet)
 }
 
 func (w *walker) info() *types.Info { return w.frames[len(w.frames)-1].info }
@@ -388,6 +390,9 @@ func (x *Extractor) ExtractFunc(fn *types.Func, encode bool) (*Seq, error) {
 				}
 			}
 		}
+	}
+	if !encode {
+		w.resultRoot = &Root{Name: "result"}
 	}
 	w.block(decl.Body.List)
 	return seq, nil
@@ -541,6 +546,46 @@ func (w *walker) assign(s *ast.AssignStmt) {
 		}
 		w.store(lp.P, v, s.Rhs[min(i, len(s.Rhs)-1)], s.Pos())
 	}
+}
+
+// scratchOps: the integer fields of a scratch slice in offset order; false unless they tile it exactly.
+func scratchOps(v vScratch) ([]*Op, bool) {
+	var offs []int64
+	for o := range v.slots {
+		offs = append(offs, o)
+	}
+	sort.Slice(offs, func(i, j int) bool { return offs[i] < offs[j] })
+	next := int64(0)
+	var out []*Op
+	for _, o := range offs {
+		if o != next {
+			return nil, false
+		}
+		next += int64(v.slots[o].Width)
+		out = append(out, v.slots[o])
+	}
+	return out, next == v.size
+}
+
+// ExtractBytesMethod analyses a method that returns the octets of its receiver (Header.Bytes): the octets returned - a
+// local buffer filled by binary.Write, or a scratch slice filled by PutUintN - are the wire image.
+func (x *Extractor) ExtractBytesMethod(fn *types.Func) (*Seq, error) {
+	decl, pkg := x.Prog.FuncDecl(fn)
+	if decl == nil || decl.Body == nil {
+		return nil, fmt.Errorf("no declaration for %s", fn.FullName())
+	}
+	seq := &Seq{Fn: fn, Decl: decl, Pkg: pkg, Guard: -1}
+	w := &walker{x: x, env: map[types.Object]val{}, seq: seq, encode: true, retBytes: true}
+	w.ops = &seq.Ops
+	w.frames = []*frame{{info: pkg.TypesInfo, pkg: pkg}}
+	if decl.Recv != nil && len(decl.Recv.List) == 1 && len(decl.Recv.List[0].Names) == 1 {
+		if v, ok := pkg.TypesInfo.Defs[decl.Recv.List[0].Names[0]].(*types.Var); ok {
+			seq.Recv = v
+			w.env[v] = vPath{P: Path{Root: &Root{Name: v.Name(), Recv: true}}}
+		}
+	}
+	w.block(decl.Body.List)
+	return seq, nil
 }
 
 // store binds a value to a field path.
@@ -904,6 +949,26 @@ func (w *walker) returnStmt(s *ast.ReturnStmt) {
 		return
 	}
 	r := Ret{Pos: s.Pos(), OpsSoFar: len(w.seq.Ops)}
+	if w.encode && w.retBytes && len(s.Results) == 1 {
+		switch v := w.eval(s.Results[0]).(type) {
+		case vBytesSeq:
+			for _, o := range v.Ops {
+				w.emit(o)
+			}
+		case vScratch:
+			if ops, tiles := scratchOps(v); tiles {
+				for _, o := range ops {
+					w.emit(o)
+				}
+			} else {
+				w.opaque(s.Pos(), "a scratch slice whose fields do not tile it is returned")
+			}
+		default:
+			w.opaque(s.Pos(), "the value returned is not a tracked buffer")
+		}
+		w.seq.Returns = append(w.seq.Returns, Ret{Kind: "terminal", Pos: s.Pos(), OpsSoFar: len(w.seq.Ops)})
+		return
+	}
 	if w.encode {
 		r.Kind = "other"
 		if len(s.Results) == 1 {
@@ -942,6 +1007,10 @@ func (w *walker) returnStmt(s *ast.ReturnStmt) {
 		r.Kind = "other"
 		if len(s.Results) == 1 {
 			switch v := w.eval(s.Results[0]).(type) {
+			case vStructLit:
+				if w.resultRoot != nil {
+					w.store(Path{Root: w.resultRoot}, v, s.Results[0], s.Pos())
+				}
 			case vErr:
 				r.Kind, r.Detail = v.kind, v.detail
 				if v.kind == "parse-error" && w.errFirst {
@@ -1664,23 +1733,12 @@ func (w *walker) writerCall(e *ast.CallExpr, callee *types.Func) val {
 				w.emit(o)
 			}
 		case vScratch:
-			var offs []int64
-			for o := range v.slots {
-				offs = append(offs, o)
-			}
-			sort.Slice(offs, func(i, j int) bool { return offs[i] < offs[j] })
-			next := int64(0)
-			for _, o := range offs {
-				if o != next {
-					return vOpaque{name + " of a scratch slice whose fields do not tile it"}
-				}
-				next += int64(v.slots[o].Width)
-			}
-			if next != v.size {
+			ops, tiles := scratchOps(v)
+			if !tiles {
 				return vOpaque{name + " of a scratch slice whose fields do not tile it"}
 			}
-			for _, o := range offs {
-				w.emit(v.slots[o])
+			for _, o := range ops {
+				w.emit(o)
 			}
 		case vTailBytes:
 			w.emit(&Op{Kind: TAIL, Field: v.P, Container: v.Container, Via: v.Via, Prim: name, Pos: e.Pos()})
